@@ -25,6 +25,8 @@ def prop_module(pid: str):
 def analyse(pid: str, prog: Program, tier: str) -> Cx:
     cx = Cx(pid, prog, tier)
     prop_module(pid).run(cx)
+    for sp in cx.seed_problems:
+        cx.inconclusive('ENGINE', 'container seed table', sp)
     return cx
 
 
